@@ -135,6 +135,7 @@ fn run_t<T: SampleX>(c0: &Case) -> Outcome {
     let mut out: Vec<f64> = Vec::with_capacity(new_len + delay + 4096);
     let mut pos = 0usize;
     let mut calls = 0;
+    let (mut dmin, mut dmax) = (delay, delay);
     // bulk of the clip
     loop {
         let need = res.in_next();
@@ -151,6 +152,10 @@ fn run_t<T: SampleX>(c0: &Case) -> Outcome {
         }
         pos += need;
         calls += 1;
+        // a caller may read output_delay() at any time: every value read during the stream must describe its alignment
+        let d = res.delay();
+        dmin = dmin.min(d);
+        dmax = dmax.max(d);
     }
     // last remaining frames
     if pos < clip_len {
@@ -193,6 +198,16 @@ fn run_t<T: SampleX>(c0: &Case) -> Outcome {
         );
         return o;
     }
+    for d in [dmin, dmax] {
+        let diff = centroid - (n0 * ratio + d as f64);
+        if !(diff.abs() <= tol) {
+            o.fail(
+                format!("delay-read-in-stream:{}", kind.name()),
+                format!("output_delay() read {} during the stream (before it: {}): event at input frame {} is centred at {:.3}, i.e. {:.3} output frames from n*ratio + that value, allowed {:.3}", d, delay, n0, centroid, diff, tol),
+            );
+            return o;
+        }
+    }
     if c0.recipe {
         // README: skip `delay` frames, keep new_length frames: must be the resampled clip itself
         let clip = &out[delay..delay + new_len];
@@ -219,7 +234,7 @@ impl Property for C14 {
         "C14"
     }
     fn rule(&self) -> String {
-        "cases = configuration of any of the seven types (ratios / rate pairs, filter lengths, block sizes, degrees, chunk sizes), a Gaussian event wide enough to lie in the passband, at a generated position; a quarter of the instances are reused ones (two chunks of noise at another ratio, then reset()); the stream is produced exactly as the README describes (process loop, process_partial for the rest, process_partial(None) until new_length + delay frames exist); the centroid of the output event must be n*ratio + output_delay() within max(1,ratio)+1 output frames, and after skipping output_delay() frames and keeping len*ratio frames the clip must contain the whole event at n*ratio. non-trivial = every case with a non-empty passband. distinct = distinct case JSON digest.".into()
+        "cases = configuration of any of the seven types (ratios / rate pairs, filter lengths, block sizes, degrees, chunk sizes), a Gaussian event wide enough to lie in the passband, at a generated position; a quarter of the instances are reused ones (two chunks of noise at another ratio, then reset()); the stream is produced exactly as the README describes (process loop, process_partial for the rest, process_partial(None) until new_length + delay frames exist); every value of output_delay() read during the stream must describe it, the centroid of the output event must be n*ratio + output_delay() within max(1,ratio)+1 output frames, and after skipping output_delay() frames and keeping len*ratio frames the clip must contain the whole event at n*ratio. non-trivial = every case with a non-empty passband. distinct = distinct case JSON digest.".into()
     }
     fn assumptions(&self) -> Vec<String> {
         vec!["configurations whose low-pass has no passband (tiny FFT blocks, short filters at strong down-sampling) are constructed away and counted".into()]
